@@ -45,6 +45,42 @@ def rayon_launches(ck, fn):
     return out
 
 
+def related_names_registered(ck, par, adds, rule):
+    """Path-sensitive part of 'both names are scheduled together': the related name handed to the distributor may be None only
+    where the file patch has a single name (one of old_filename()/new_filename() is None) or the two names compared equal."""
+    def name_opt(e):
+        return isinstance(e, tuple) and (df.is_call(e, "::old_filename") or df.is_call(e, "::new_filename"))
+    none_edges = []
+    for sw in pt.discr_switches(par, lambda e, rv: df.mentions(e, name_opt)):
+        if "None" in sw["edges"]:
+            none_edges.append(sw["edges"]["None"])
+    eq_edges = []
+    for g in guards.find_bool_guards(par, lambda e: isinstance(e, tuple) and e[0] == "call" and (e[1].endswith("::eq") or e[1].endswith("::ne")) and len(e[2]) == 2):
+        a, b = g["expr"][2]
+        if df.mentions(a, lambda x: df.is_call(x, "::old_filename")) and df.mentions(b, lambda x: df.is_call(x, "::new_filename")) or \
+                df.mentions(a, lambda x: df.is_call(x, "::new_filename")) and df.mentions(b, lambda x: df.is_call(x, "::old_filename")):
+            eq_edges.append(g["true_edge"] if g["expr"][1].endswith("::eq") else g["false_edge"])
+    n = 0
+    for bb, t, c in adds:
+        locs = df.operand_trace(par, t["args"][2])
+        for l in sorted(locs):
+            for dd in df.defs_of(par).all(l):
+                if dd[0] != "stmt" or dd[3]["rv"]["k"] != "agg":
+                    continue
+                e = df.rvalue_expr(par, dd[3]["rv"])
+                comps = e[3] if e[0] == "agg" and e[1] == "tuple" else (e,)
+                last = comps[-1]
+                if not (isinstance(last, tuple) and last[0] == "agg" and last[1].endswith("option::Option") and last[2] == "None"):
+                    continue
+                n += 1
+                ok = any(dd[1] in cfg.dominated_by_edge(par, ed) for ed in none_edges + eq_edges)
+                ck.require(ok, rule, "no related name only for single-named file patches",
+                           "a file patch can be scheduled without a related name although both of its names are present and were not found "
+                           "equal: the two names are not tied to one worker", par.where(dd[3]),
+                           ok_detail="this `None` is only reached when one name is absent or old == new")
+    ck.floor(rule, "scheduling arms without a related name", n, 3)
+
+
 def run(ck):
     prog, cg = ck.prog, ck.cg
     par = ck.anchor(A["par"])
@@ -250,6 +286,7 @@ def run(ck):
         ck.require("new" in n2, "C06-R8", "second name of a two-name file patch registered with the first",
                    "the related name handed to the distributor never derives from new_filename(): a file patch whose old and new names "
                    "differ is scheduled by one name only, so two workers can own the same file", par.where(t), ok_detail="derives from %s" % sorted(n2))
+    related_names_registered(ck, par, adds, "C06-R8")
     # dispatch key
     idx = [(bb, t) for bb, t in par.calls() if (callee_of(t).get("path") or "").endswith("Index::index") and "HashMap" in (t["argtys"][0] if t["argtys"] else "")]
     ck.floor("C06-R8", "dispatch lookups in the thread map", len(idx), 1)
